@@ -425,6 +425,59 @@ func run(tier string, shard, nsh int, res *ev.Result) {
 				}
 			}
 		}
+		// every ORDER of four fields: two far-apart addresses with a repeated low one (two requests; a lower slot created
+		// after a merge into an existing one), both kinds on two targets interleaved, overlapping wide fields at a batch edge
+		{
+			var perms [][]int
+			var gen func(cur []int, used int)
+			gen = func(cur []int, used int) {
+				if len(cur) == 4 {
+					perms = append(perms, append([]int(nil), cur...))
+					return
+				}
+				for i := 0; i < 4; i++ {
+					if used&(1<<i) == 0 {
+						gen(append(cur, i), used|1<<i)
+					}
+				}
+			}
+			gen(nil, 0)
+			sets := [][]F{
+				{{"A", 1, 10, 5, 0, 0}, {"A", 1, 300, 5, 0, 0}, {"A", 1, 10, 6, 0, 0}, {"A", 1, 250, 7, 0, 0}},
+				{{"A", 1, 10, 14, 0, 0}, {"A", 1, 3000, 14, 0, 0}, {"A", 1, 10, 14, 0, 0}, {"A", 1, 2500, 14, 0, 0}},
+				{{"A", 1, 10, 5, 0, 0}, {"A", 1, 10, 14, 0, 0}, {"B", 1, 10, 14, 0, 0}, {"B", 1, 10, 5, 0, 0}},
+				{{"A", 1, 10, 5, 0, 0}, {"A", 2, 12, 14, 0, 0}, {"A", 2, 14, 5, 0, 0}, {"A", 1, 16, 14, 0, 0}},
+				{{"A", 1, 0, 5, 0, 0}, {"A", 1, 120, 9, 0, 0}, {"A", 1, 122, 13, 0, 10}, {"A", 1, 5, 7, 0, 0}},
+				{{"A", 1, 10, 5, 0, 0}, {"A", 1, 8, 7, 0, 0}, {"A", 1, 12, 5, 0, 0}, {"A", 1, 11, 9, 0, 0}},
+			}
+			for _, set := range sets {
+				for _, pm := range perms {
+					fs := make([]F, 4)
+					for i, j := range pm {
+						fs[i] = set[j]
+					}
+					for tgt := 0; tgt < 8; tgt++ {
+						eval(Case{Target: tgt, Fields: fs}, res, lc)
+					}
+				}
+			}
+			// server addresses that differ only in their scheme prefix (or in having one) are different targets
+			spell := []string{"h:502", "tcp://h:502", "udp://h:502", "rtu://h:502", "tcp://h:5020"}
+			for _, a := range spell {
+				for _, b := range spell {
+					if a == b {
+						continue
+					}
+					for _, tgt := range []int{0, 4, 5} {
+						typ := uint8(5)
+						if tgt < 4 {
+							typ = 14
+						}
+						eval(Case{Target: tgt, Fields: []F{{a, 1, 10, typ, 0, 0}, {b, 1, 11, typ, 0, 0}, {a, 1, 12, typ, 0, 0}}}, res, lc)
+					}
+				}
+			}
+		}
 		// same-address fields that are not neighbours in the list
 		for _, t1 := range []uint8{5, 9, 1, 13} {
 			for _, t2 := range []uint8{5, 9, 1, 13} {
